@@ -17,7 +17,7 @@ LEVEL = "exploration"
 TECHNIQUE = "bounded-exhaustive enumeration of Resources values / operand lists against a reference arithmetic"
 RULE = ("all pairs over a 960-value product alphabet (structure x gpus x memory x time x partition x extra_args) for "
         "combine_max/with_defaults/maybe_with_defaults; all operand lists of length 1..3 (thorough 4) over per-quantity "
-        "focus alphabets; update with every field and an unknown key; from_dict/dict round trip; to_slurm_options; invalid "
+        "focus alphabets; update with every field and an unknown key; from_dict/dict round trip; to_slurm_options; NestedPipeFunc resources >= its children's (6x6 child resources, nested directly and through Pipeline(default_resources in 3 values).nest_funcs); invalid "
         "constructions by single-edit mutation. non-trivial = distinct operand list in which at least two operands set the "
         "same quantity to different values (a real max/precedence decision) or a side-effect probe on a non-empty extra_args")
 ASSUMPTIONS = ["memory units are decimal (1 KB = 1000 B), as documented by Resources._convert_to_gb",
@@ -28,7 +28,7 @@ BUDGET = {"quick": 60.0, "thorough": 600.0}
 STRUCT = [{}, {"cpus": 1}, {"cpus": 10}, {"nodes": 2}, {"nodes": 2, "cpus_per_node": 2}]
 GPUS = [None, 0, 2]
 MEM = [None, "500MB", "2GB", "1024MB"]
-MEM_FULL = [None, "500MB", "2GB", "1.5GB", "1024MB", "1TB", "900B", "3kb", "1500MB", "0.5PB"]
+MEM_FULL = [None, "500MB", "2GB", "1.5GB", "1024MB", "1TB", "900B", "3kb", "1500MB", "0.5PB", "100B", "1.2KB", "1.4KB"]  # sizes below 1 KB and two that differ by < 1 KB
 TIME = [None, "30:00", "2:00:00", "10:00:00"]
 def _spellings(seconds):
     """every valid spelling of a duration: MM:SS (< 100 min), H:MM:SS / HH:MM:SS (hours unbounded), D:HH:MM:SS (hours < 100)"""
@@ -137,6 +137,50 @@ def check_combine(ops_kw):
 
 
 QUANT = ("cpus", "cpus_per_node", "nodes", "memory", "gpus", "time", "partition")
+
+
+def _child(name, param, out, kw):
+    ns: dict = {}
+    exec(f"def {name}({param}):\n    return {param}\n", ns)  # noqa: S102
+    from pipefunc import PipeFunc
+    return PipeFunc(ns[name], out, resources=mk(kw) if kw else None)
+
+
+def check_nested(a_kw, b_kw, d_kw, how):
+    """NestedPipeFunc resources = the maximum of its children's: two chained functions with resources A and B, nested
+    directly (how='ctor') or through Pipeline(default_resources=D).nest_funcs('*') (how='nest_funcs')"""
+    import contextlib, io
+    from pipefunc import NestedPipeFunc, Pipeline
+    out = []
+    try:
+        with contextlib.redirect_stdout(io.StringIO()):
+            f1, f2 = _child("f1", "x", "y", a_kw), _child("f2", "y", "z", b_kw)
+            if how == "ctor":
+                kids = [f1, f2]
+                nested = NestedPipeFunc(kids)
+            else:
+                p = Pipeline([f1, f2], default_resources=mk(d_kw) if d_kw else None)
+                kids = list(p.functions)  # their resources include the pipeline defaults
+                kid_res = [k.resources for k in kids]
+                nested = p.nest_funcs("*")
+                kids = None
+        res = nested.resources
+        kid_res = [k.resources for k in kids] if kids is not None else kid_res
+    except Exception as e:  # noqa: BLE001
+        clash = any(("cpus" in x and "nodes" in y) or ("nodes" in x and "cpus" in y) for x in (a_kw, b_kw, d_kw or {}) for y in (a_kw, b_kw, d_kw or {}))
+        if isinstance(e, ValueError) and clash:
+            return []
+        return [({"kind": "exception", "op": "nested-" + how, "exc": type(e).__name__}, f"nesting f1({a_kw}) and f2({b_kw}) [{how}, defaults {d_kw}] raised {e!r}")]
+    kid_res = [r for r in kid_res if r is not None]
+    for q, measure in (("cpus", lambda v: v), ("gpus", lambda v: v), ("memory", mem_bytes), ("time", dur_s)):
+        have = [getattr(r, q) for r in kid_res if getattr(r, q) is not None]
+        if not have:
+            continue
+        got = getattr(res, q, None) if res is not None else None
+        if got is None or any(measure(got) < measure(h) for h in have):
+            out.append(({"kind": "not-max", "op": "nested-" + how, "quantity": q},
+                        f"NestedPipeFunc of f1({a_kw}) and f2({b_kw}) [{how}, pipeline defaults {d_kw}] has {q} = {got!r}, smaller than a child's ({have})"))
+    return out
 
 
 def check_defaults(a_kw, b_kw, via):
@@ -272,6 +316,8 @@ def run_case(case):
         return check_single(case["r"])
     if op == "invalid":
         return check_invalid(case["kw"])
+    if op == "nested":
+        return check_nested(case["a"], case["b"], case.get("d"), case["how"])
     raise ValueError(op)
 
 
@@ -290,6 +336,7 @@ def plan(tier, seed):
     for c in range(nchunks):
         units.append(("pairs-medium-alphabet", ("pairs", c, nchunks)))
     units.append(("singles-updates-invalid", ("singles",)))
+    units.append(("nested-function-resources", ("nested",)))
     for q in ("time", "memory", "cpus", "gpus"):
         for L in (1, 2, 3):
             units.append((f"lists-len<={3}", ("lists", q, L, 0, 1)))
@@ -357,6 +404,15 @@ def run_unit(unit):
             do({"op": "invalid", "kw": kw}, f"i|{kw}")
             acc.stratum("invalid-constructions")
         acc.sample({"op": "update", "r": full[7], "key": "foo", "value": 1})
+    elif kind == "nested":
+        small = [{}, {"cpus": 1}, {"cpus": 8, "memory": "16GB", "time": "1:00:00:00"}, {"cpus": 2, "gpus": 1, "memory": "500MB", "time": "30:00"},
+                 {"memory": "2GB"}, {"gpus": 2, "time": "2:00:00"}]
+        for a in small:
+            for b in small:
+                do({"op": "nested", "a": a, "b": b, "how": "ctor"}, f"n|{a}|{b}" if _decisive([a, b]) else None)
+                for d in (None, {"cpus": 1, "memory": "1GB", "time": "10:00"}, {"gpus": 1}):
+                    do({"op": "nested", "a": a, "b": b, "d": d, "how": "nest_funcs"}, f"nf|{a}|{b}|{d}" if _decisive([a, b, d or {}]) else None)
+        acc.stratum("nested-resources")
     elif kind == "lists":
         _, q, L, first, n = unit
         al = focus_alphabet(q)
